@@ -135,6 +135,9 @@ def all_single_faults(cut_offsets: str = "sample") -> list[dict[str, Any]]:
         for off in (["h1", "h2", "h3", "h", "b1", "b500", "b999"] if cut_offsets == "sample" else []):
             out.append({"kind": "cut", "req": req, "at": off, "zone": "header" if off.startswith("h") and off != "h" else "body"})
         out.append({"kind": "unread-reply", "req": req})
+        if req != "status":
+            # a daemon started with -v streams log frames to the client while the command runs
+            out.append({"kind": "unread-reply", "req": req, "needs_verbose": True})
     for sub, payload in RAW_FRAMES:
         out.append({"kind": "raw-frame", "sub": sub, "payload": payload})
     for sub, req, mut in BAD_REQUESTS:
@@ -163,6 +166,8 @@ def gen_sequences(n: int, tier: str) -> Iterator[dict[str, Any]]:
         v = list(r.choice(VERSIONS))
         elems: list[dict[str, Any]] = []
         faults = [dict(cat[order[k % len(cat)]])] + [dict(r.choice(cat)) for _ in range(nf - 1)]
+        if faults[0].get("needs_verbose"):
+            verbose = True
         r2 = r.random()
         if r2 < 0.35:
             # a random body offset instead of the sampled ones
@@ -233,6 +238,8 @@ def death_site(log: str) -> str:
             m2 = _EXC_RE.match(ln)
             if m2:
                 exc = m2.group(1).split(".")[-1]
+                if exc in ("BrokenPipeError", "ConnectionResetError", "ConnectionAbortedError"):
+                    exc = "PeerClosedError"  # EPIPE or ECONNRESET depending on what the closed peer had left unread
     return f"{exc or 'UnknownException'}@{site or 'outside-daemon-modules'}"
 
 
@@ -277,13 +284,17 @@ def classify_event(ev: dict[str, Any]) -> list[tuple[str, str]]:
                     + (", the hostile client itself had been answered; bytes it left behind broke the next client's connection)"
                        if phase == "on-next-connection" else ")")))
         if p.get("status_file_names_dead_pid"):
-            out.append((f"status-file-left:after-death:{site}",
+            cmd = ((ev.get("hostile") or {}).get("request") or {}).get("command")
+            out.append((f"status-file-left:after-death:command={cmd if isinstance(cmd, str) else '-'}:{site}",
                         f"daemon exited after '{label}' but the status file still names its pid"))
         return out
     if p.get("unresponsive"):
         out.append((f"daemon-unresponsive:{fam}:{classify_probe_text(p.get('barrier_error', ''))}",
                     f"daemon alive but a well-formed status request after '{label}' was not answered: {p.get('barrier_error')!r}"))
         return out
+    if p.get("barrier_reply_error"):
+        out.append((f"later-request-affected:{fam}:status-got-error-reply:{classify_probe_text(p['barrier_reply_error'])}",
+                    f"well-formed status request after '{label}' was answered with an error: {p['barrier_reply_error']!r}"))
     if p.get("barrier_foreign"):
         out.append((f"later-request-affected:{fam}:status-got-foreign-response",
                     f"status request after '{label}' got the response to another request (keys {p.get('barrier_keys')})"))
